@@ -226,6 +226,11 @@ def L(cid: int):  # noqa: N802
         f"class DA{u}(SupBase):\n    pass\n\n\ndef mkda{u}() -> SupBase:\n    made = SupBase()\n    return made\n",
         {"classes": {f"DA{u}": {"superclasses": ["vpkg.support.SupBase"]}}, "dontcare_prefixes": [f"mkda{u}"]},
     )
+    letters["enum_kinds"] = (
+        f"class FL{u}(Flag):\n    X = auto()\n\n\nclass SE{u}(StrEnum):\n    A = 'a'\n\n\nclass EB{u}(Enum):\n    pass\n\n\nclass ED{u}(EB{u}):\n    Y = 1\n",
+        {"enums": {f"FL{u}": {"instances": [f"FL{u}/X"]}, f"SE{u}": {"instances": [f"SE{u}/A"]}, f"EB{u}": {"instances": []}, f"ED{u}": {"instances": [f"ED{u}/Y"]}},
+         "enum_instances": [f"FL{u}/X", f"SE{u}/A", f"ED{u}/Y"]},
+    )
     letters["enum_in_class"] = (
         f"class H{u}:\n    class Col{u}(Enum):\n        RED = 1\n\n    def h(self) -> int:\n        return 1\n",
         merge({"classes": {f"H{u}": {"methods": [f"H{u}/h"]}}, "enums": {f"H{u}/Col{u}": {"instances": [f"H{u}/Col{u}/RED"]}}, "enum_instances": [f"H{u}/Col{u}/RED"]}, fn(f"H{u}/h", ["self"])),
@@ -253,7 +258,7 @@ def L(cid: int):  # noqa: N802
     return letters
 
 
-HEADER = "import collections\nimport functools\nfrom enum import Enum, IntEnum\nfrom typing import Generic, TypeVar, overload\n\nfrom vpkg import support\nfrom vpkg.support2 import SupBase as OtherSupBase\nfrom vpkg.support import SupBase\nfrom vpkg.support import SupBase2 as AliasedBase\n\nT = TypeVar('T')\n\n\n"
+HEADER = "import collections\nimport functools\nfrom enum import Enum, Flag, IntEnum, StrEnum, auto\nfrom typing import Generic, TypeVar, overload\n\nfrom vpkg import support\nfrom vpkg.support2 import SupBase as OtherSupBase\nfrom vpkg.support import SupBase\nfrom vpkg.support import SupBase2 as AliasedBase\n\nT = TypeVar('T')\n\n\n"
 SUPPORT2 = "class SupBase:\n    def other(self) -> int:\n        return 1\n"
 SUPPORT = "class SupBase:\n    pass\n\n\nclass SupBase2:\n    pass\n\n\nclass SupOther:\n    pass\n"
 LETTER_NAMES = list(L(0))
